@@ -13,7 +13,8 @@ WIDTH_CLASSES = {
 
 AWKWARD_NAMES = ['b.x', 'c-y', 'a[0]', 'a[1]', '3w', 'wire', 'always', 'x1', 'x01', 'x001',
                  'reg', 'assign', 'q$', 'a b', 'out', 'in', 'module', 'x10', 'x2', 'é',
-                 'input', 'output', 'tmp', 'begin', 'end', 'my_sig', 'X1', 'a.b.c', 'n-1']
+                 'input', 'output', 'tmp', 'begin', 'end', 'my_sig', 'X1', 'a.b.c', 'n-1',
+                 'a[10]', 'a[9]', 'a[2]', 'v.10', 'v.9']
 
 COMB_OPS = 'w~&|^n+-*<>=xcs'
 
@@ -282,8 +283,32 @@ class _G(object):
             idx = self.sel_indices(q[1], ln)
             self.add_net('s', idx, [q[0]], [self.dest(ln, sync=q[2])])
 
+    def const_pad_pair(self):
+        """Two concats of the same wire with same-valued constant pads whose widths are
+        swapped (x << w2 vs x << w1): equal except for constant bitwidths."""
+        rng = self.rng
+        x = rng.choice(self.avail)
+        w1, w2 = rng.sample([1, 2, 3, 4, 5], 2)
+        v = rng.choice([0, 0, 1])
+        total = x[1] + w1 + w2
+        if total > self.cfg['max_concat']:
+            return
+        outs = []
+        for a, b in ((w1, w2), (w2, w1)):
+            ca, cb = self.name('c'), self.name('c')
+            self.add_wire('C', a, ca, val=v & mask(a), sync=True)
+            self.add_wire('C', b, cb, val=v & mask(b), sync=True)
+            d = self.name('t')
+            self.add_wire('W', total, d, sync=x[2])
+            self.add_net('c', None, [ca, x[0], cb], [d])
+            outs.append(d)
+        return outs
+
     def dup_net(self):
         rng = self.rng
+        if rng.random() < 0.15:
+            self.const_pad_pair()
+            return
         cands = [n for n in self.nets if n['op'] in COMB_OPS + 'm' and n['d']]
         if not cands:
             return
